@@ -513,6 +513,16 @@ fn process_tags(
                         idx_output.insert(idx, events);
                     }
                 } else {
+                    // Exceeding a configured limit is final: a retry cannot succeed, and would
+                    // re-run the element from whatever state (e.g. loop variables) it left behind.
+                    if let Err(
+                        SvgdxError::LoopLimitError(..)
+                        | SvgdxError::VarLimitError(..)
+                        | SvgdxError::DepthLimitExceeded(..),
+                    ) = gen_result
+                    {
+                        return gen_result.map(|_| None);
+                    }
                     if let (Some(el), Err(err)) = (el, gen_result) {
                         if let SvgdxError::MultiError(err_list) = err {
                             for (idx, (el, err)) in err_list {
